@@ -56,12 +56,14 @@ func opClient(code int64, e []int64, f int64, r FAddr) hx.Zs {
 	z := append(hx.Zs{code, f}, eaddrEnc(e)...)
 	return append(z, r.enc()...)
 }
-func OpLocalSubscribe(e []int64, f int64, r FAddr) hx.Zs { return opClient(16, e, f, r) }
-func OpLocalBind(e []int64, f int64, r FAddr) hx.Zs      { return opClient(17, e, f, r) }
-func OpHasLocalSub(e []int64, f int64, r FAddr) hx.Zs    { return opClient(18, e, f, r) }
-func OpHasLocalBind(e []int64, f int64, r FAddr) hx.Zs   { return opClient(19, e, f, r) }
-func OpReadData(e []int64, f, fn int64) hx.Zs            { return append(hx.Zs{20, f, fn}, eaddrEnc(e)...) }
-func OpResolve(p, dev int64) hx.Zs                       { return hx.Zs{21, p, dev} }
+func OpLocalSubscribe(e []int64, f int64, r FAddr) hx.Zs   { return opClient(16, e, f, r) }
+func OpLocalBind(e []int64, f int64, r FAddr) hx.Zs        { return opClient(17, e, f, r) }
+func OpLocalUnsubscribe(e []int64, f int64, r FAddr) hx.Zs { return opClient(23, e, f, r) }
+func OpLocalUnbind(e []int64, f int64, r FAddr) hx.Zs      { return opClient(24, e, f, r) }
+func OpHasLocalSub(e []int64, f int64, r FAddr) hx.Zs      { return opClient(18, e, f, r) }
+func OpHasLocalBind(e []int64, f int64, r FAddr) hx.Zs     { return opClient(19, e, f, r) }
+func OpReadData(e []int64, f, fn int64) hx.Zs              { return append(hx.Zs{20, f, fn}, eaddrEnc(e)...) }
+func OpResolve(p, dev int64) hx.Zs                         { return hx.Zs{21, p, dev} }
 
 // OpDuring: while the teardown operation td of one peer runs, the registry call of another peer arrives
 func OpDuring(td, call hx.Zs) hx.Zs {
@@ -72,7 +74,7 @@ func OpDuring(td, call hx.Zs) hx.Zs {
 var OpNames = map[int64]string{1: "add-local-entity", 2: "add-local-feature", 3: "add-function", 4: "connect", 5: "discovery-reply",
 	6: "discovery-notify", 7: "subscribe-call", 8: "subscribe-delete", 9: "bind-call", 10: "bind-delete", 11: "set-data", 12: "write",
 	13: "disconnect", 14: "list-subscriptions", 15: "list-bindings", 16: "local-subscribe", 17: "local-bind", 18: "has-local-sub",
-	19: "has-local-bind", 20: "read-data", 21: "resolve", 22: "teardown-overlapped-by-call"}
+	19: "has-local-bind", 20: "read-data", 21: "resolve", 22: "teardown-overlapped-by-call", 23: "local-unsubscribe", 24: "local-unbind"}
 
 // ---- world plans
 
